@@ -21,6 +21,7 @@ type SolverCfg struct {
 	seed     int
 	keepSMT  bool
 	noRetry  map[string]bool // known findings: expected not to discharge
+	confirm  bool            // thorough tier: a discharged obligation is put to a second solver
 }
 
 // constsOf: set of free constant ids in a term (memoised).
@@ -339,6 +340,34 @@ func (eng *Engine) solve(body string, o *Obligation, cfg *SolverCfg) {
 		}
 		return false
 	}
+	// thorough tier: a proof found by one solver is shown to a second one; an answer "sat" from
+	// it is a disagreement and is reported as a failure of the obligation
+	defer func() {
+		if !cfg.confirm || o.status != "discharged" || want != "unsat" || o.kind == "vacuity" {
+			return
+		}
+		other := "z3"
+		if o.solver == "z3" || o.solver == "cvc5" {
+			other = "z3-new"
+		}
+		cf := base + ".confirm.smt2"
+		if err := os.WriteFile(cf, []byte(script), 0o644); err != nil {
+			return
+		}
+		ctx2, cancel2 := context.WithTimeout(context.Background(), 22*time.Second)
+		r2 := runSolver(ctx2, other, cf, 20*time.Second)
+		cancel2()
+		if r2.status != "sat" {
+			os.Remove(cf)
+		}
+		switch r2.status {
+		case "unsat":
+			o.confirmed = other
+		case "sat":
+			o.status = "failed"
+			o.output = fmt.Sprintf("solver disagreement: %s proved the obligation, %s answers sat\n%s", o.solver, other, r2.out)
+		}
+	}()
 	var log strings.Builder
 	if o.narrow != "" && want == "unsat" {
 		nf := base + ".narrow.smt2"
@@ -584,12 +613,21 @@ func (eng *Engine) solveAll(results []*FuncResult, cfg *SolverCfg, filter func(o
 				defer func() { <-sem }()
 				t0 := time.Now()
 				j.o.status = "discharged"
+				allConfirmed := true
+				defer func() {
+					if j.o.status == "discharged" && allConfirmed && cfg.confirm {
+						j.o.confirmed = "second solver, every return path"
+					}
+				}()
 				for k, sub := range subs {
 					if sub.goal == True {
 						continue
 					}
 					eng.solve(bodies[k], sub, cfg)
 					j.o.solver = sub.solver
+					if sub.confirmed == "" {
+						allConfirmed = false
+					}
 					if sub.status != "discharged" {
 						j.o.status, j.o.output, j.o.model, j.o.smt = sub.status, sub.output, sub.model, sub.smt
 						break
